@@ -1,241 +1,29 @@
-import GPVerif.Model.Structured
-import GPVerif.Model.LDL
-import GPVerif.Gen.Interp
-import GPVerif.Model.Proto
-import Mathlib.Data.Rat.Floor
+import GPVerif.Model.StructuredDriver
+import GPVerif.Gen.StructuredAlgebra
 /-!
-Line-protocol driver for C09.  One request per line: `<op> <matrix>*`, matrices as `rows cols v…` (exact
-rationals); replies are matrices separated by ` | `.  Runs only `Structured.*`, `Interp.*`, `Gen.Interp.*`.
+C09 driver: the protocol of `GPVerif/Model/StructuredDriver.lean` evaluated with the REGENERATED strategy algebra.
+Imports Model/Gen only.
 -/
-open Proto Structured
+open StructuredDriver Gen.StructuredAlgebra
 
-abbrev RawMat := Nat × Nat × Array (Array Rat)
+def genOps : GenOps where
+  sgprCovarCache := sgprCovarCache
+  sgprPredictiveCovar := sgprPredictiveCovar
+  defaultMeanCache := defaultMeanCache
+  defaultPredictiveMean := defaultPredictiveMean
+  rffCovarCache := rffCovarCache
+  rffInnerTerm := rffInnerTerm
+  rffPredictiveCovar := rffPredictiveCovar
+  interpMeanCache := interpMeanCache
+  interpPredictiveMean := interpPredictiveMean
+  getCovarianceSame := getCovarianceSame
+  getCovarianceCross := getCovarianceCross
+  multitaskForward := multitaskForward
+  indexCovarMatrix := indexCovarMatrix
+  indexForward := indexForward
+  lcmForward := lcmForward
+  gridToeplitzFactors := gridToeplitzFactors
+  gridForward := gridForward
+  addedLoss := addedLoss
 
-partial def parseMats (ts : List String) (acc : Array RawMat := #[]) : Option (Array RawMat) :=
-  if ts.isEmpty then some acc else
-  match takeMat? ts with
-  | some (r, c, rows, rest) => parseMats rest (acc.push (r, c, rows))
-  | none => none
-
-def asMat (M : RawMat) (r c : Nat) : Option (DMat r c Rat) :=
-  if M.1 = r ∧ M.2.1 = c then some (DMat.ofRaw M.2.2) else none
-
-def sh {r c : Nat} (M : DMat r c Rat) : String := showRows M.toRows
-
-def colFn {n : Nat} (v : DMat n 1 Rat) : Fin n → Rat := fun i => v.get i.1 0
-
-def natOf (q : Rat) : Nat := q.num.toNat
-
-def idxFn {n : Nat} (v : DMat n 1 Rat) (t : Nat) : Option (Fin n → Fin t) :=
-  if h : 0 < t then
-    if (List.finRange n).all (fun i => decide (natOf (v.get i.1 0) < t)) then
-      some fun i => ⟨natOf (v.get i.1 0) % t, Nat.mod_lt _ h⟩
-    else none
-  else none
-
-def normInf {r c : Nat} (M : DMat r c Rat) : Rat :=
-  M.toRows.foldl (fun acc row => max acc (row.foldl (fun s v => s + |v|) 0)) 0
-
-def joinOut (l : List String) : String := " | ".intercalate l
-
-/-- kron A B -/
-def opKron (ms : Array RawMat) : Option String := do
-  let A ← ms[0]?; let B ← ms[1]?
-  let a ← asMat A A.1 A.2.1; let b ← asMat B B.1 B.2.1
-  pure (sh (kron a b))
-
-/-- lcm A1 B1 A2 B2 … (all A's the same shape, all B's the same shape) -/
-def opLcm (ms : Array RawMat) : Option String := do
-  let A ← ms[0]?; let B ← ms[1]?
-  let n := A.1; let m := A.2.1; let t := B.1; let s := B.2.1
-  let rec pairs (i : Nat) (fuel : Nat) (acc : List (DMat n m Rat × DMat t s Rat)) :
-      Option (List (DMat n m Rat × DMat t s Rat)) :=
-    match fuel with
-    | 0 => some acc.reverse
-    | fuel + 1 =>
-      if i + 1 < ms.size then do
-        let a ← asMat ms[i]! n m; let b ← asMat ms[i+1]! t s
-        pairs (i + 2) fuel ((a, b) :: acc)
-      else some acc.reverse
-  let ps ← pairs 0 ms.size []
-  match ps with
-  | hd :: tl => pure (sh (lcmKernel hd tl))
-  | [] => none
-
-/-- index F v i1 i2 [K]  — with K: Hadamard multitask kernel -/
-def opIndex (ms : Array RawMat) : Option String := do
-  let F ← ms[0]?; let V ← ms[1]?; let I1 ← ms[2]?; let I2 ← ms[3]?
-  let t := F.1; let r := F.2.1; let n := I1.1; let m := I2.1
-  let f ← asMat F t r; let v ← asMat V t 1; let i1 ← asMat I1 n 1; let i2 ← asMat I2 m 1
-  let g1 ← idxFn i1 t; let g2 ← idxFn i2 t
-  let B := indexCovar f (colFn v)
-  match ms[4]? with
-  | some K => do
-      let k ← asMat K n m
-      pure (joinOut [sh B, sh (hadamardTask k B g1 g2)])
-  | none => pure (joinOut [sh B, sh (indexGather B g1 g2)])
-
-def sqOf (M : RawMat) (toep : Bool) : Option (Sq Rat) :=
-  if toep then
-    (asMat M M.1 1).map fun c => ⟨M.1, toeplitz (colFn c)⟩
-  else
-    (asMat M M.1 M.1).map fun K => ⟨M.1, K⟩
-
-/-- grid / gridrm: per-dimension factors (`T…`: first columns, Toeplitz; `D…`: dense) -/
-def opGrid (toep rowMajor : Bool) (ms : Array RawMat) : Option String := do
-  let Ks ← ms.toList.mapM (sqOf · toep)
-  let R := if rowMajor then gridKronRowMajor Ks else gridKron Ks
-  pure (sh R.2)
-
-/-- cond K N Ksx Kss r -/
-def opCond (ms : Array RawMat) : Option String := do
-  let K ← ms[0]?; let N ← ms[1]?; let Ksx ← ms[2]?; let Kss ← ms[3]?; let R ← ms[4]?
-  let n := K.1; let ns := Kss.1
-  let k ← asMat K n n; let nn ← asMat N n n; let ksx ← asMat Ksx ns n; let kss ← asMat Kss ns ns; let r ← asMat R n 1
-  let (mu, cov) ← conditional? k nn ksx kss r
-  let Ainv ← DMat.inv? (k.add nn)
-  pure (joinOut [sh mu, sh cov, showRat (normInf (k.add nn) * normInf Ainv)])
-
-def boolOf (M : RawMat) : Bool := (M.2.2[0]?.bind (·[0]?)).getD 0 != 0
-
-/-- sgpr corr kdiag Kxz Kzz Ksz Kss r noise R
-replies: 0 Q | 1 Qs | 2 kernel_eval(R) | 3 cross(R) | 4 cache(R) | 5 mean(R) | 6 cov(R) |
-7 titsias mean | 8 titsias cov | 9 represented-matrix mean | 10 represented-matrix cov |
-11 ‖R Rᵀ − Kzz⁻¹‖∞ / ‖Kzz⁻¹‖∞ | 12 quad (titsias) | 13 det(Q+Σ) | 14 added loss | 15 cond(A_code) -/
-def opSgpr (ms : Array RawMat) : Option String := do
-  let C ← ms[0]?; let KD ← ms[1]?; let Kxz ← ms[2]?; let Kzz ← ms[3]?; let Ksz ← ms[4]?; let Kss ← ms[5]?
-  let Rr ← ms[6]?; let Nz ← ms[7]?; let Rt ← ms[8]?
-  let corr := boolOf C
-  let n := Kxz.1; let m := Kxz.2.1; let ns := Ksz.1
-  let kd ← asMat KD n 1; let kxz ← asMat Kxz n m; let kzz ← asMat Kzz m m; let ksz ← asMat Ksz ns m
-  let kss ← asMat Kss ns ns; let r ← asMat Rr n 1; let nz ← asMat Nz n 1; let R ← asMat Rt m m
-  let kzzInv ← DMat.inv? kzz
-  -- dense meaning (certified inverse of Kzz)
-  let Q := (kxz.mul kzzInv).mul kxz.transpose
-  let Qs := (ksz.mul kzzInv).mul kxz.transpose
-  let Sigma : DMat n n Rat := DMat.diagonal (colFn nz)
-  let (mt, ct) ← conditional? Q Sigma Qs kss r
-  let dcorr : Fin n → Rat := fun i => if corr then diagCorrection (colFn kd) Q i else 0
-  let (mc, cc) ← conditional? (Q.add (DMat.diagonal dcorr)) Sigma Qs kss r
-  let AcInv ← DMat.inv? ((Q.add (DMat.diagonal dcorr)).add Sigma)
-  let condA := normInf ((Q.add (DMat.diagonal dcorr)).add Sigma) * normInf AcInv
-  -- the code's algebra, given the root R it actually computed
-  let Rx := nystromRoot kxz R
-  let L := nystromRoot ksz R
-  let Keval := nystromEval corr (colFn kd) kxz R
-  let cross := nystromCross ksz kxz R
-  let dd : Fin n → Rat := fun i => (if corr then diagCorrection (colFn kd) (lowRank Rx) i else 0) + colFn nz i
-  let dinv : Fin n → Rat := fun i => (dd i)⁻¹
-  let Minv ← DMat.inv? (sgprCapacitance Rx dinv)
-  let cache := sgprCache Rx (sgprInverseExact Rx dinv Minv)
-  let AinvR ← DMat.inv? (Keval.add Sigma)
-  let meanR := sgprPredMean L Rx AinvR r
-  let covR := sgprPredCovar kss L cache
-  let resid := normInf ((R.mul R.transpose).sub kzzInv) / normInf kzzInv   -- relative
-  -- Titsias bound pieces
-  let At := Q.add Sigma
-  let AtInv ← DMat.inv? At
-  let quad := ((r.transpose.mul (AtInv.mul r)).get 0 0)
-  let (_, dpiv) ← DMat.ldl? At
-  let det := (List.finRange n).foldl (fun acc i => acc * dpiv i) (1 : Rat)
-  let added := titsiasAddedLoss (colFn kd) Q.diag (colFn nz)
-  pure (joinOut [sh Q, sh Qs, sh Keval, sh cross, sh cache, sh meanR, sh covR, sh mt, sh ct, sh mc, sh cc,
-    showRat resid, showRat quad, showRat det, showRat added, showRat condA])
-
-/-- rff c F Fs noise r
-replies: K | Ksx | Kss | mean | cov (dense conditional) | inner | cov through rffPredCovarExact | cond -/
-def opRff (ms : Array RawMat) : Option String := do
-  let C ← ms[0]?; let F ← ms[1]?; let Fs ← ms[2]?; let Nz ← ms[3]?; let Rr ← ms[4]?
-  let c : Rat := (C.2.2[0]?.bind (·[0]?)).getD 1
-  let n := F.1; let k := F.2.1; let ns := Fs.1
-  let f ← asMat F n k; let fs ← asMat Fs ns k; let nz ← asMat Nz n 1; let r ← asMat Rr n 1
-  let K := (f.mul f.transpose).smul c
-  let Ksx := (fs.mul f.transpose).smul c
-  let Kss := (fs.mul fs.transpose).smul c
-  let Sigma : DMat n n Rat := DMat.diagonal (colFn nz)
-  let (mu, cov) ← conditional? K Sigma Ksx Kss r
-  let Ainv ← DMat.inv? (K.add Sigma)
-  let inner := rffInner c f Ainv
-  let covR := rffPredCovarExact c fs inner
-  pure (joinOut [sh K, sh Ksx, sh Kss, sh mu, sh cov, sh inner, sh covR, showRat (normInf (K.add Sigma) * normInf Ainv)])
-
-/-- interp eps d grid_0 … grid_{d-1} X   (grids as G×1, X as npts×d; eps as 1×1, 0 = default)
-replies: indices (npts × nc^d) | values -/
-def opInterp (ms : Array RawMat) : Option String := do
-  let E ← ms[0]?; let D ← ms[1]?
-  let d := natOf ((D.2.2[0]?.bind (·[0]?)).getD 0)
-  let e : Rat := (E.2.2[0]?.bind (·[0]?)).getD 0
-  let eps : Rat := if e = 0 then Gen.Interp.defaultEps else e
-  if ms.size ≠ d + 3 then none else
-  let grids : List (Nat × (Nat → Rat)) := (List.range d).map fun i =>
-    let G := ms[2 + i]!
-    (G.1, fun k => ((G.2.2[k]?).bind (·[0]?)).getD 0)
-  let X := ms[2 + d]!
-  let rows := X.2.2.toList.map fun row => Interp.interpolate (Gen.Interp.spec eps) grids row.toList
-  let idx := rows.map fun r => r.map fun p => ((p.1 : Int) : Rat)
-  let val := rows.map fun r => r.map (·.2)
-  pure (joinOut [showRows idx, showRows val])
-
-/-- kiss W Ws Kuu noise r [Wf noisef rf]
-replies: Kxx | Ksx | Kss | mean (through interpMeanCache) | cov | mean_cache | cond
-with the fantasy triple additionally: updated P | updated resp | fantasy mean cache (exact form) |
-fantasy mean | fantasy cov (dense conditional on the concatenated data) -/
-def opKiss (ms : Array RawMat) : Option String := do
-  let W ← ms[0]?; let Ws ← ms[1]?; let Kuu ← ms[2]?; let Nz ← ms[3]?; let Rr ← ms[4]?
-  let n := W.1; let g := W.2.1; let ns := Ws.1
-  let w ← asMat W n g; let ws ← asMat Ws ns g; let kuu ← asMat Kuu g g; let nz ← asMat Nz n 1; let r ← asMat Rr n 1
-  let Kxx := interpKernel w kuu w
-  let Ksx := interpKernel ws kuu w
-  let Kss := interpKernel ws kuu ws
-  let Sigma : DMat n n Rat := DMat.diagonal (colFn nz)
-  let Ainv ← DMat.inv? (Kxx.add Sigma)
-  let mc := interpMeanCache kuu w Ainv r
-  let mean := interpApply ws mc
-  let cov := condCovar Kss Ksx Ainv
-  let base := [sh Kxx, sh Ksx, sh Kss, sh mean, sh cov, sh mc, showRat (normInf (Kxx.add Sigma) * normInf Ainv)]
-  match ms[5]?, ms[6]?, ms[7]? with
-  | some Wf, some Nf, some Rf => do
-      let nf := Wf.1
-      let wf ← asMat Wf nf g; let nzf ← asMat Nf nf 1; let rf ← asMat Rf nf 1
-      let dinv : Fin n → Rat := fun i => (colFn nz i)⁻¹
-      let dinvf : Fin nf → Rat := fun i => (colFn nzf i)⁻¹
-      let (P, resp) := wiskiUpdate (wiskiInnerProd w dinv) (wiskiResponse w dinv r) wf dinvf rf
-      -- the root-free exact fantasy mean cache needs a g×g rational inverse: only for small grids
-      let (fmc, fmean) ← (if g ≤ 14 then do
-          let Tinv ← DMat.inv? (wiskiT kuu P)
-          let fmc := wiskiMeanCacheExact kuu Tinv resp
-          pure (fmc, interpApply ws fmc)
-        else pure (DMat.zero, DMat.zero) : Option (DMat g 1 Rat × DMat ns 1 Rat))
-      -- dense conditional on the concatenated data
-      let wall := vstack w wf
-      let Kall := interpKernel wall kuu wall
-      let Ksall := interpKernel ws kuu wall
-      let SigAll : DMat (n + nf) (n + nf) Rat := DMat.diagonal (Fin.addCases (colFn nz) (colFn nzf))
-      let (dm, dc) ← conditional? Kall SigAll Ksall Kss (vstack r rf)
-      pure (joinOut (base ++ [sh P, sh resp, sh fmc, sh fmean, sh dm, sh dc]))
-  | _, _, _ => pure (joinOut base)
-
-def step (line : String) : String :=
-  match tokens line with
-  | op :: rest =>
-    match parseMats rest with
-    | none => "bad-matrices"
-    | some ms =>
-      let res := match op with
-        | "kron" => opKron ms
-        | "lcm" => opLcm ms
-        | "index" => opIndex ms
-        | "gridT" => opGrid true false ms
-        | "gridD" => opGrid false false ms
-        | "gridrmT" => opGrid true true ms
-        | "gridrmD" => opGrid false true ms
-        | "cond" => opCond ms
-        | "sgpr" => opSgpr ms
-        | "rff" => opRff ms
-        | "interp" => opInterp ms
-        | "kiss" => opKiss ms
-        | _ => none
-      res.getD "fail"
-  | [] => "empty"
-
-def main : IO Unit := Proto.main step
+def main : IO Unit := Proto.main (step genOps)
